@@ -553,7 +553,48 @@ fn small_runtime() -> Runtime<NoCtx> {
     .expect("runtime")
 }
 
-fn compile_loop(tag: usize, iters: &[(u64, u64)]) {
+/// Private runtimes of the background compilers: the same two function names with different
+/// bodies, registered in opposite orders (so that the same function *index* means a different
+/// function in the two libraries).
+fn order_a_runtime() -> Runtime<NoCtx> {
+    Runtime::from_lib(library! {
+        #[clone] type Tr = Val<T24>;
+        fn first(x: u64) -> u64 { host("first", x); x + 1000 }
+        fn second(x: u64) -> u64 { host("second", x); x + 2000 }
+        fn mk(x: u64) -> Val<T24> {
+            host("mk", x);
+            Val(T24::new(x))
+        }
+        fn val(t: Val<T24>) -> u64 {
+            let p = payload_of(&t.0, "host function val() received a tracked value that is not alive");
+            host("val", p);
+            p
+        }
+    })
+    .expect("runtime")
+}
+fn order_b_runtime() -> Runtime<NoCtx> {
+    Runtime::from_lib(library! {
+        #[clone] type Tr = Val<T24>;
+        fn second(x: u64) -> u64 { host("second", x); x * 3 + 5 }
+        fn val(t: Val<T24>) -> u64 {
+            let p = payload_of(&t.0, "host function val() received a tracked value that is not alive");
+            host("val", p);
+            p
+        }
+        fn first(x: u64) -> u64 { host("first", x); x * 7 + 3 }
+        fn mk(x: u64) -> Val<T24> {
+            host("mk", x);
+            Val(T24::new(x))
+        }
+    })
+    .expect("runtime")
+}
+
+/// One background thread: compile - get_function - call - drop, `iters` times. The runtime is a
+/// clone of the callers' runtime (scripts then declare records whose layouts differ from script
+/// to script), or one of two private libraries.
+fn compile_loop(tag: usize, iters: &[(u64, u64)], shared_rt: Option<Sendable<Runtime<NoCtx>>>) {
     for (j, (q, x)) in iters.iter().enumerate() {
         {
             let _pg = alloc::ModeGuard::new(alloc::MODE_PLAIN);
@@ -562,8 +603,29 @@ fn compile_loop(tag: usize, iters: &[(u64, u64)]) {
         if IN_CALL.load(SeqCst) > 0 {
             P_COMPILE_DURING_CALL.fetch_add(1, SeqCst);
         }
-        let rt = small_runtime();
-        let src = format!("const Q{tag}: Tr = mk({c});\nfn g{tag}_{j}(x: u64) -> u64 {{ let w{tag} = x * {q}; w{tag} + val(mk(x)) + val(Q{tag}) }}\n", c = 9000 + tag as u64);
+        let variant = (tag as u64 + *q) % 3;
+        let c = 9000 + tag as u64;
+        let (rt, src, want): (Runtime<NoCtx>, String, u64) = match (variant, &shared_rt) {
+            (0, Some(rt)) => {
+                // records with different layouts at the same position of the script
+                let (decl, expr, extra) = match q % 3 {
+                    0 => (format!("record P{tag} {{ a: u8, b: u64 }}"), format!("let p = P{tag} {{ a: 7, b: x * {q} }}; p.b + 1"), 1u64),
+                    1 => (format!("record P{tag} {{ a: u64, b: u64, c: u64, d: u8 }}"), format!("let p = P{tag} {{ a: 1, b: x * {q}, c: 2, d: 3 }}; p.b + p.a + p.c"), 3u64),
+                    _ => (format!("record P{tag} {{ s: String, b: u64, t: Tr }}"), format!("let p = P{tag} {{ s: \"s\", b: x * {q}, t: mk(4) }}; p.b + val(p.t)"), 4u64),
+                };
+                (rt.0.clone(), format!("{decl}\nconst Q{tag}: Tr = mk({c});\nfn g{tag}_{j}(x: u64) -> u64 {{ {expr} + val(mk(x)) + val(Q{tag}) }}\n"), x * q + extra + x + c)
+            }
+            (1, _) | (0, None) => (
+                order_a_runtime(),
+                format!("const Q{tag}: Tr = mk({c});\nfn g{tag}_{j}(x: u64) -> u64 {{ let w{tag} = first(x) * {q}; w{tag} + second(x) + val(mk(x)) + val(Q{tag}) }}\n"),
+                (x + 1000) * q + (x + 2000) + x + c,
+            ),
+            _ => (
+                order_b_runtime(),
+                format!("const Q{tag}: Tr = mk({c});\nfn g{tag}_{j}(x: u64) -> u64 {{ let w{tag} = first(x) * {q}; w{tag} + second(x) + val(mk(x)) + val(Q{tag}) }}\n"),
+                (x * 7 + 3) * q + (x * 3 + 5) + x + c,
+            ),
+        };
         let pkg = {
             let _cg = alloc::ModeGuard::new(alloc::MODE_COMPILE);
             FileTree::test_file("bg", &src, 0).compile(&rt)
@@ -577,9 +639,8 @@ fn compile_loop(tag: usize, iters: &[(u64, u64)]) {
                         drop(rt);
                         let _ = take_hostlog();
                         let got = f.call(*x);
-                        let want = x * q + x + 9000 + tag as u64;
                         if got != want {
-                            viol::record("wrong-result", format!("background function g{tag}_{j}({x}) returned {got}, expected {want}"));
+                            viol::record("wrong-result", format!("background function g{tag}_{j}({x}) (library variant {variant}, q={q}) returned {got}, expected {want}"));
                         }
                         let _ = take_hostlog();
                         drop(f);
@@ -1013,7 +1074,9 @@ pub fn execute(d: &ConcDesc, keep_trace: bool) -> RunResult {
             }
             for (tag, it) in d.compilers.iter().enumerate() {
                 let it = it.clone();
-                bodies.push(Box::new(move || compile_loop(tag, &it)));
+                // a clone of the callers' runtime for this compiler (made here, on the main thread)
+                let rt_clone = if owners_ok { shared.lock().unwrap().0.as_ref().map(|r| Sendable(r.0.0.clone())) } else { None };
+                bodies.push(Box::new(move || compile_loop(tag, &it, rt_clone)));
             }
             out = sched::run_sim(
                 SimCfg { seed: d.sched_seed, strategy: Strategy::parse(&d.strategy).unwrap_or(Strategy::Uniform), replay: d.schedule.clone(), step_cap: 3_000_000, keep_trace },
